@@ -6,7 +6,7 @@ wt=$(mktemp -d /tmp/mutwt-XXXXXX); rmdir $wt
 git -C /repo worktree add -q $wt HEAD || exit 3
 if ! git -C $wt apply "$patch"; then echo "PATCH-DOES-NOT-APPLY $patch"; git -C /repo worktree remove --force $wt; exit 3; fi
 for p in "$@"; do
-  out=$(cd /verif && VERIF_REPO=$wt VERIF_JOBS=${VERIF_JOBS:-8} timeout 1500 ./check $p --tier ${TIER:-quick} 2>&1); rc=$?
+  out=$(cd /verif && VERIF_NO_EVIDENCE=1 VERIF_REPO=$wt VERIF_JOBS=${VERIF_JOBS:-8} timeout 1500 ./check $p --tier ${TIER:-quick} 2>&1); rc=$?
   echo "MUT $(basename $(dirname $patch))/$(basename $(dirname $(dirname $patch))) prop=$p rc=$rc $(echo "$out" | grep -c '^VIOLATION') violations; $(echo "$out" | grep '^SUMMARY' | cut -c1-160)"
   echo "$out" | grep -E "^  instance" | head -3 | cut -c1-260
 done
